@@ -1270,6 +1270,186 @@ def _stage_sshsig(ctx, env, rng, thorough, a, tmp):
 
 
 # ================================================================================================
+# stage: time values under several process time zones (each zone in its own subprocess)
+
+ZONES = [('UTC0', 0), ('WST12', 43200), ('EST-14', -50400), ('XXX+5', 18000), ('IST-5:30', -19800)]
+REL = [('+2h', 7200), ('-2h', -7200), ('-1d', -86400), ('90', 90), ('1w2d', 777600), ('now', 0), ('+30m', 1800), ('-0', 0)]
+BAD_ABS = ['20231301', '20230230Z', '2023111424', '20231114236000Z', '20231114221360', '00000101Z', '20231100']
+BAD = ['always', 'forever', 'tomorrow', '2023-11-14', '20231114T22Z']
+
+
+def gen_timeval(rng, base):
+    """-> (API value, Coq tspec, utc reading or None, kind) ; kind: int / absZ / abs / rel / bad"""
+    import time as _t
+    r = rng.random()
+    if r < 0.12:
+        return base, '(TInt %d)' % base, base, 'int'
+    if r < 0.62:
+        full = _t.strftime('%Y%m%d%H%M%S', _t.gmtime(base))
+        n = rng.choice([14, 14, 14, 12, 10, 8, 9, 11, 13])
+        ds = full[:n]
+        z = rng.random() < 0.6
+        padded = ds.ljust(14, '0')
+        import calendar
+        u = calendar.timegm((int(padded[0:4]), int(padded[4:6]), int(padded[6:8]), int(padded[8:10]), int(padded[10:12]),
+                             int(padded[12:14]), 0, 0, 0))
+        return ds + ('Z' if z else ''), '(TAbs %s %s)' % (zs(ds), cbool(z)), u, 'absZ' if z else 'abs'
+    if r < 0.8:
+        txt, d = rng.choice(REL)
+        return txt, '(TRel %s)' % cz(d), d, 'rel'
+    if r < 0.92:
+        txt = rng.choice(BAD_ABS)
+        z = txt.endswith('Z')
+        return txt, '(TAbs %s %s)' % (zs(txt.rstrip('Z')), cbool(z)), None, 'bad'
+    return rng.choice(BAD), 'TBad', None, 'bad'
+
+
+def expected_time(tv, off, pnow):
+    val, coq, u, kind = tv
+    if kind in ('int', 'absZ'):
+        return u
+    if kind == 'abs':
+        return u + off
+    if kind == 'rel':
+        return pnow + u
+    return None
+
+
+def run_zone(tz, cases, timeout=300):
+    import json
+    import subprocess
+    env = dict(os.environ)
+    env['PYTHONPATH'] = core.REPO + os.pathsep + core.VERIF
+    p = subprocess.run([core.PY, '-m', 'harness.c16_tz'], input=json.dumps({'tz': tz, 'cases': cases}), capture_output=True,
+                       text=True, timeout=timeout, cwd=core.VERIF, env=env)
+    if p.returncode != 0:
+        raise RuntimeError('time-zone worker failed: ' + p.stderr[-800:])
+    return json.loads(p.stdout)
+
+
+def stage_timezones(ctx, env):
+    from concurrent.futures import ThreadPoolExecutor
+    rng = ctx.rng
+    ncase = 260 if ctx.tier == 'thorough' else 70
+    plans = {}
+    for tz, off in ZONES:
+        cl = []
+        for i in range(ncase):
+            kind = 'cert' if i % 2 == 0 else 'signers'
+            base = T0 + rng.choice([0, 0, 3600 * 7, -86400 * 3, 86400 * 200]) + rng.randrange(-50, 50)
+            pnow = T0 + rng.randrange(-1000, 1000)
+            which = rng.choice(['va', 'vb', 'both']) if i >= 8 else ['vb', 'vb', 'va', 'va'][i // 2]
+            if i < 8:      # every zone, every run: a Z limit and a zone-less limit on each side, full precision
+                import time as _t
+                ds = _t.strftime('%Y%m%d%H%M%S', _t.gmtime(base))
+                z = i % 2 == 0 or i in (1, 5)
+                z = (i // 2) % 2 == 0 if kind == 'cert' else (i // 2) % 2 == 0
+                tv = (ds + ('Z' if i % 4 < 2 else ''), '(TAbs %s %s)' % (zs(ds), cbool(i % 4 < 2)), base, 'absZ' if i % 4 < 2 else 'abs')
+                which = 'vb' if i < 4 else 'va'
+                tva, tvb = (tv, None) if which == 'va' else (None, tv)
+            else:
+                def draw(b):
+                    tv = gen_timeval(rng, b)
+                    while kind == 'signers' and tv[3] == 'int':     # a line holds text; digits there are a date
+                        tv = gen_timeval(rng, b)
+                    return tv
+                tva = draw(base) if which in ('va', 'both') else None
+                tvb = draw(base + (86400 if which == 'both' else 0)) if which in ('vb', 'both') else None
+            nows = set()
+            for tv in (tva, tvb):
+                if tv is None or tv[2] is None:
+                    continue
+                u = tv[2] if tv[3] != 'rel' else pnow + tv[2]
+                for k in (-1, 0, 1, off - 1, off, off + 1, -off - 1, -off, -off + 1, off // 2, -(off // 2)):
+                    nows.add(u + k)
+            if not nows:
+                nows = {pnow}
+            nows = sorted(n for n in nows if n > 0)
+            if len(nows) > 8:
+                nows = sorted(rng.sample(nows, 8))
+            cl.append(dict(kind=kind, tva=tva, tvb=tvb, pnow=pnow, nows=nows))
+        plans[tz] = cl
+
+    def job(z):
+        tz, off = z
+        return run_zone(tz, [dict(kind=c['kind'], va=None if c['tva'] is None else c['tva'][0],
+                                  vb=None if c['tvb'] is None else c['tvb'][0], pnow=c['pnow'], nows=c['nows'])
+                             for c in plans[tz]])
+    with ThreadPoolExecutor(max_workers=len(ZONES)) as ex:
+        results = list(ex.map(job, ZONES))
+    pt_cases, win_cases = [], []
+    hit = {}
+    for (tz, off), res in zip(ZONES, results):
+        for c, r in zip(plans[tz], res):
+            tva, tvb, pnow = c['tva'], c['tvb'], c['pnow']
+            eva = None if tva is None else expected_time(tva, off, pnow)
+            evb = None if tvb is None else expected_time(tvb, off, pnow)
+            bad = (tva is not None and eva is None) or (tvb is not None and evb is None)
+            forms = '/'.join(t[3] for t in (tva, tvb) if t)
+            ctx.note_case(('tz', tz, c['kind'], None if tva is None else tva[0], None if tvb is None else tvb[0], pnow),
+                          nontrivial=off != 0)
+            rp = dict(kind='tz_window', tz=tz, off=off, case=dict(kind=c['kind'], va=None if tva is None else tva[0],
+                                                                  vb=None if tvb is None else tvb[0], pnow=pnow))
+            if c['kind'] == 'cert':
+                lo, hi = (0 if eva is None else eva), (2 ** 64 - 1 if evb is None else evb)
+                if r['err']:
+                    if bad and r['err'] == 'ValueError':
+                        for tv in (tva, tvb):
+                            if tv is not None and expected_time(tv, off, pnow) is None and (tva is None or tvb is None):
+                                pt_cases.append('(%s, %s, %s, None)' % (tv[1], cz(off), cz(pnow)))
+                        ctx.count('tz.cert_generation_refused')
+                    elif not bad and lo < hi and lo >= 0:
+                        ctx.failing_input(f'TZ={tz}: certificate generation with valid_after={rp["case"]["va"]!r} '
+                                          f'valid_before={rp["case"]["vb"]!r} fails with {r["err"]}', dict(rp, now=None, expect=0))
+                    continue
+                if bad:
+                    ctx.failing_input(f'TZ={tz}: certificate generated from an unparsable time value ({rp["case"]})',
+                                      dict(rp, now=None, expect=2))
+                    continue
+                for tv, got, exp, name in ((tva, r['va'], eva, 'valid_after'), (tvb, r['vb'], evb, 'valid_before')):
+                    if tv is None:
+                        continue
+                    pt_cases.append('(%s, %s, %s, (Some %s))' % (tv[1], cz(off), cz(pnow), cz(got)))
+                    if got != exp:
+                        ctx.failing_input(f'TZ={tz} (UTC offset {-off}s): certificate generated with {name}={tv[0]!r} carries '
+                                          f'{got}, but that time value denotes {exp} '
+                                          f'({"UTC instant" if tv[3] == "absZ" else "local time" if tv[3] == "abs" else tv[3]})',
+                                          dict(rp, now=None, expect=0, field=name, expected_value=exp))
+                for now, got in zip(c['nows'], r['res']):
+                    exp = 0 if lo <= now < hi else 1
+                    win_cases.append('(%s, %s, %s, %s, %s, %s)' % (copt(tva, lambda t: t[1]), copt(tvb, lambda t: t[1]), cz(off),
+                                                               cz(pnow), cz(now), cz(got)))
+                    hit[(forms, exp)] = hit.get((forms, exp), 0) + 1
+                    if got != exp:
+                        ctx.failing_input(f'TZ={tz} (UTC offset {-off}s): certificate issued with valid_after={rp["case"]["va"]!r} '
+                                          f'valid_before={rp["case"]["vb"]!r} is {"accepted" if got == 0 else "rejected"} at '
+                                          f'{L.ts_string(now)} (window in UTC seconds [{lo},{hi}))', dict(rp, now=now, expect=exp))
+            else:
+                for now, got in zip(c['nows'], r['res']):
+                    va = None if tva is None else expected_time(tva, off, now)
+                    vb = None if tvb is None else expected_time(tvb, off, now)
+                    exp = 2 if bad else (0 if (va is None or va <= now) and (vb is None or now < vb) else 1)
+                    if isinstance(got, int):
+                        win_cases.append('(%s, %s, %s, %s, %s, %s)' % (copt(tva, lambda t: t[1]), copt(tvb, lambda t: t[1]), cz(off),
+                                                                   cz(now), cz(now), cz(got)))
+                    hit[(forms, exp)] = hit.get((forms, exp), 0) + 1
+                    if got != exp:
+                        ctx.failing_input(f'TZ={tz} (UTC offset {-off}s): allowed-signers entry valid-after={rp["case"]["va"]!r} '
+                                          f'valid-before={rp["case"]["vb"]!r}: signature {("validates", "is refused", "raises ValueError")[got] if isinstance(got, int) else got} '
+                                          f'at {L.ts_string(now)}, expected {("validates", "refused", "ValueError")[exp]}',
+                                          dict(rp, now=now, expect=exp))
+            ctx.count('tz.%s.%s' % (tz, c['kind']))
+    for f in ('absZ', 'abs', 'rel'):
+        if not any(k[0] == f and k[1] == 0 for k in hit) or not any(k[0] == f and k[1] == 1 for k in hit):
+            ctx.broke('vacuity:timezones', f'form {f}: no accept or no reject case; {sorted(hit)}')
+    ctx.cov['oracle']['time_zone_checks'] = sum(hit.values())
+    ctx.cov['oracle']['time_zones'] = [z for z, _ in ZONES]
+    ctx.sample({'time_zone_case': {'tz': ZONES[1][0], 'case': {k: (v if not isinstance(v, tuple) else v[0]) for k, v in plans[ZONES[1][0]][0].items()}}})
+    submit(ctx, 'parse_time', 'chk_parse_time', pt_cases, 'tspec * Z * Z * option Z', 400)
+    submit(ctx, 'time_window', 'chk_time_window', win_cases, 'option tspec * option tspec * Z * Z * Z * Z', 400)
+
+
+# ================================================================================================
 
 def check_tables(ctx, env):
     """The model's certificate-algorithm table against the live registry (and probed field counts)."""
@@ -1321,6 +1501,8 @@ def run(ctx):
     ctx.log('certs done')
     stage_sshsig(ctx, env)
     ctx.log('sshsig done')
+    stage_timezones(ctx, env)
+    ctx.log('timezones done')
     run_jobs(ctx)
     o = ctx.cov['oracle']
     dev = []
@@ -1379,6 +1561,17 @@ def replay(rp):
                     accepted = False
         print('accepted' if accepted else 'rejected', '(expected %s)' % rp['expect'])
         return 1 if accepted != (rp['expect'] == 'accept') else 0
+    if kind == 'tz_window':
+        c = dict(rp['case'])
+        c['nows'] = [rp['now']] if rp.get('now') is not None else [c['pnow']]
+        r = run_zone(rp['tz'], [c])[0]
+        print('TZ', rp['tz'], c, '->', r)
+        if rp.get('field'):
+            got = r['va'] if rp['field'] == 'valid_after' else r['vb']
+            return 1 if got != rp['expected_value'] else 0
+        if rp.get('now') is None:
+            return 1 if bool(r.get('err')) != (rp['expect'] == 2) else 0
+        return 1 if (r['res'] or [None])[0] != rp['expect'] else 0
     if kind == 'cert_extensions':
         blob = bytes.fromhex(rp['blob'])
         try:
